@@ -1435,6 +1435,15 @@ class Interp:
                     return [(s, Lin.c(1 if e else 0))]
                 f = s.copy()
                 out = []
+                if any(a_.startswith('strlen(') for a_, _ in d.terms):
+                    s.ev('cap_cmp', n, form=d, bound=0, op='==')
+                    f.ev('cap_cmp', n, form=d, bound=None, op='!=')
+                sg_ = d.single()
+                if sg_ is not None and sg_[1] in (1, -1) and sg_[0] in s.prov:
+                    # a loaded byte compared with a constant: remembered for the table-extraction rules
+                    cst = -sg_[2] * sg_[1]
+                    s.ev('bytecmp', n, atom=sg_[0], const=cst, eq=True, src=s.prov[sg_[0]])
+                    f.ev('bytecmp', n, atom=sg_[0], const=cst, eq=False, src=s.prov[sg_[0]])
                 if s.facts.assume_eq(d, 0) and self.model.refined(s, d, self) is not False:
                     out.append((s, Lin.c(1)))
                 if f.facts.assume_ne(d, 0) and self.model.refined(f, d, self) is not False:
@@ -1457,7 +1466,7 @@ class Interp:
             f = s.copy()
             out = []
             self.stats['forks'] += 1
-            if any(a_.endswith('.data_size') for a_, _ in form.terms):
+            if any(a_.endswith('.data_size') or a_.startswith('strlen(') for a_, _ in form.terms):
                 # a comparison against a variable's capacity: remembered for the tightness rules
                 s.ev('cap_cmp', n, form=form, bound=c, op=op)
                 f.ev('cap_cmp', n, form=form.scale(-1), bound=-c - 1, op='!' + op)
